@@ -133,6 +133,49 @@ func ruleR192(c *Ctx) {
 		}
 		return true
 	})
+	if !okFound {
+		// a search loop that stops at the matching entry: for found >= 0 && table[found].Operator != ref { found-- }
+		ast.Inspect(fd.Body, func(x ast.Node) bool {
+			fs, ok := x.(*ast.ForStmt)
+			if !ok || fs.Cond == nil {
+				return true
+			}
+			var conj []ast.Expr
+			conjuncts(fs.Cond, &conj)
+			for _, cj := range conj {
+				be, ok := ast.Unparen(cj).(*ast.BinaryExpr)
+				if !ok || be.Op != token.NEQ {
+					continue
+				}
+				for _, side := range []ast.Expr{be.X, be.Y} {
+					sel, ok := ast.Unparen(side).(*ast.SelectorExpr)
+					if !ok {
+						continue
+					}
+					ix, ok := ast.Unparen(sel.X).(*ast.IndexExpr)
+					if !ok {
+						continue
+					}
+					if k, _ := exprKey(info, ix.Index); k != foundSym {
+						continue
+					}
+					// the index moves in the loop
+					moves := containsNode(fs, func(y ast.Node) bool {
+						inc, ok := y.(*ast.IncDecStmt)
+						if !ok {
+							return false
+						}
+						k2, _ := exprKey(info, inc.X)
+						return k2 == foundSym
+					})
+					if moves {
+						okFound = true
+					}
+				}
+			}
+			return true
+		})
+	}
 	want := symVar(foundSym).add(linConst(1))
 	switch {
 	case !okFound:
@@ -179,6 +222,13 @@ func ruleR191(c *Ctx) {
 				v := ast.Unparen(kv.Value)
 				if u, ok := v.(*ast.UnaryExpr); ok && u.Op == token.AND {
 					if inner, ok := u.X.(*ast.CompositeLit); ok && isNamed(info.TypeOf(inner), modPath, "Const") {
+						nConst++
+						continue
+					}
+				}
+				if call, ok := v.(*ast.CallExpr); ok {
+					// newConst(co, line): the literal lives in a private constructor
+					if inner, _ := c.ctorLiteral(info, call); inner != nil && isNamed(c.typeOfAny(inner), modPath, "Const") {
 						nConst++
 						continue
 					}
